@@ -125,7 +125,58 @@ func c30RunBFS(arg string) explore.HistFn {
 	}
 }
 
+// c30Pub: a v5 client publishes every topic class through the live broker, with and without
+// a Topic Alias and at QoS 0/1; an all-seeing observer (# and $SYS/#) and a read-out of the
+// retained store decide whether the topic was accepted.
+func c30Pub(arg string) explore.CaseSet {
+	topics := []string{"a", "a/b", "$SYS/a", "$SYS", "$SYSa", "$share/g/a", "$a", "a/+", "a/#", "+", "#", "a+", "/", "$SYS/+"}
+	return explore.CaseSet{Total: len(topics) * 8, Run: func(i int) explore.CaseResult {
+		t := topics[i/8]
+		alias, qos, retain := i%2 == 1, byte((i/2)%2), (i/4)%2 == 1
+		w := world.New(nil, world.Config{})
+		defer w.End()
+		o := w.Connect(world.ConnectPacket("o", 5, true))
+		o.Do(ref.Packet{Type: ref.SUBSCRIBE, PacketID: 1, Filters: []ref.Filter{{Filter: "#", Opts: 0}, {Filter: "$SYS/#", Opts: 0}, {Filter: "$share/#", Opts: 0}, {Filter: "$a/#", Opts: 0}, {Filter: "$SYSa/#", Opts: 0}}})
+		a := w.Connect(world.ConnectPacket("a", 5, true))
+		pk := pub(t, "m", qos, 9)
+		pk.Retain = retain
+		if alias {
+			pk.Props = ref.Props{{ID: ref.PTopicAlias, Num: 1}}
+		}
+		a.Do(pk)
+		o.Poll()
+		res := explore.CaseResult{Evals: 1}
+		want := ref.ValidPublishTopic(t)
+		routed := false
+		for _, r := range o.Recv {
+			if r.Type == ref.PUBLISH && string(r.Payload) == "m" {
+				routed = true
+			}
+		}
+		_, retained := w.S.Topics.Retained.Get(t)
+		if !want {
+			res.Nontrivial = 1
+		}
+		cls := c30TopicClass(t)
+		rp := map[string]any{"topic": t, "alias": alias, "qos": qos, "retain": retain}
+		if !want && (routed || retained) {
+			res.Viol = append(res.Viol, explore.Violation{Key: fmt.Sprintf("publish:accepted-invalid:%s:alias=%v", cls, alias), Msg: fmt.Sprintf("client PUBLISH to %q (alias=%v qos=%d retain=%v) was routed=%v retained=%v; such a topic must be refused", t, alias, qos, retain, routed, retained), Replay: rp})
+		}
+		if want && ref.IsShare(t) {
+			// no subscription filter can address a topic whose first level is $share (such a
+			// filter is a shared subscription), so acceptance is observed in the retained store
+			routed = !retain || retained
+		}
+		if want && !routed && !a.Closed() {
+			res.Viol = append(res.Viol, explore.Violation{Key: fmt.Sprintf("publish:rejected-valid:%s:alias=%v", cls, alias), Msg: fmt.Sprintf("client PUBLISH to valid topic %q (alias=%v qos=%d) was not routed", t, alias, qos), Replay: rp})
+		}
+		res.Viol = append(res.Viol, runtimeViolations(w)...)
+		return res
+	}}
+}
+
 func init() {
+	explore.RegisterCases("c30pub", c30Pub)
 	explore.RegisterBFS("c30", c30RunBFS)
 	explore.RegisterReplayer("C30", func(raw json.RawMessage) (bool, []string) {
 		var r struct {
@@ -193,5 +244,6 @@ func init() {
 		rep.Sample(map[string]any{"examples": []string{all[7], all[len(all)/2], all[len(all)-3]}})
 		// E2 part: SUBSCRIBE with each invalid filter class -> 0x8F / 0x80 and nothing created
 		explore.RunBFS(c, "c30", "", 1, 40*time.Second)
+		explore.RunCases(c, "c30pub", "", 20*time.Second)
 	})
 }
